@@ -25,6 +25,8 @@ def run(ctx):
     E.r_invalid_window(prog, rep)
     E.r_epoch_persist(prog, rep)
     E.r_state_order(prog, rep)
+    E.r_parallel_vectors(prog, rep)
+    E.r_scan_waits(prog, rep)
     E.r_discovered_demanded(prog, rep)
 
 
